@@ -30,7 +30,7 @@ def parse_fails(out):
 def run(rep, tier, seed, replay=None):
     res, changed = proof_stage(rep, 'C01', extra_trusted=[
         'engine skeleton Model/Engine.v is hand-written (tied by the dirty-flag correspondence and trace validation)',
-        'interface hypotheses WF, H1 on the real algorithms: validated on every traced pass, not proved',
+        'interface hypotheses WF, H1 (output-level theorems) and H3, HQ (layout-level theorem) on the real algorithms: validated on every traced pass, not proved; NS is falsified by the block algorithm (known finding, counted per run)',
         'exact-key memo = cfg(taffy_verif) hook; the real lossy key is a known finding',
         'theorems cover the root LayoutOutput and cache validity for every algorithm; the per-node stored layouts only for algorithms '
         'satisfying NS/HQ/H3 (C01_layouts_equal_fresh_for_nonscribbling_algorithms; H3/HQ are read off the three hidden-child loops, not '
